@@ -87,7 +87,9 @@ pub fn run_in_child(req: &RunRequest, f: ScenarioFn, wall_limit: Duration) -> Ru
         unsafe { libc::setrlimit(libc::RLIMIT_CPU, &cpu) };
         crate::shims::REPORT_FD.store(wfd, std::sync::atomic::Ordering::SeqCst);
         let req2 = req.clone();
-        let stack = crate::harness::SIM_STACK_BYTES;
+        // C08 ("does not overflow the stack") runs the driver on a stack of the size its
+        // tasks get in production: Tokio's default worker-thread stack, 2 MiB.
+        let stack = if req.property == "C08" { 2 << 20 } else { crate::harness::SIM_STACK_BYTES };
         let handle = std::thread::Builder::new()
             .name("sim".into())
             .stack_size(stack)
